@@ -30,3 +30,4 @@ def run(ctx, R):
     argon.rule_skeleton(ctx, R, F)
     jitcross.rule_v2sym_a64(ctx, R)
     aes.rule_cover(ctx, R, F)
+    driver.rule_bind_excl(ctx, R)
